@@ -8,6 +8,7 @@ import (
 	"fmt"
 	"os"
 	"sync"
+	"sync/atomic"
 	"testing"
 	"testing/synctest"
 	"time"
@@ -234,34 +235,53 @@ func checkSemaBubble(c SemaCase) error {
 		for step, a := range c.Script {
 			i := a.Arg
 			switch a.Kind {
-			case "start":
-				if i >= c.G || state[i] != "" {
-					continue
+			case "start", "burst":
+				// "burst" starts every goroutine whose bit is set in Arg at
+				// the same instant (spin barrier), so that several Acquire
+				// calls race for the same slot.
+				var batch []int
+				if a.Kind == "start" {
+					batch = []int{i}
+				} else {
+					for j := 0; j < c.G; j++ {
+						if a.Arg>>uint(j)&1 == 1 {
+							batch = append(batch, j)
+						}
+					}
 				}
-				mu.Lock()
-				state[i] = "waiting"
-				mu.Unlock()
-				go func() {
-					err := s.Acquire(ctxs[i])
+				var goFlag atomic.Bool
+				for _, i := range batch {
+					if i >= c.G || state[i] != "" {
+						continue
+					}
 					mu.Lock()
-					if err != nil {
-						state[i], errs[i] = "failed", err
+					state[i] = "waiting"
+					mu.Unlock()
+					go func() {
+						for !goFlag.Load() {
+						}
+						err := s.Acquire(ctxs[i])
+						mu.Lock()
+						if err != nil {
+							state[i], errs[i] = "failed", err
+							mu.Unlock()
+							return
+						}
+						holders++
+						if holders > c.Cap {
+							v.fail("%d successful Acquires outstanding on a semaphore of capacity %d", holders, c.Cap)
+						}
+						state[i] = "holding"
 						mu.Unlock()
-						return
-					}
-					holders++
-					if holders > c.Cap {
-						v.fail("%d successful Acquires outstanding on a semaphore of capacity %d", holders, c.Cap)
-					}
-					state[i] = "holding"
-					mu.Unlock()
-					<-rel[i]
-					mu.Lock()
-					holders--
-					state[i] = "released"
-					mu.Unlock()
-					s.Release()
-				}()
+						<-rel[i]
+						mu.Lock()
+						holders--
+						state[i] = "released"
+						mu.Unlock()
+						s.Release()
+					}()
+				}
+				goFlag.Store(true)
 			case "release":
 				if i < c.G && !relClosed[i] {
 					relClosed[i] = true
@@ -327,7 +347,7 @@ func checkSemaBubble(c SemaCase) error {
 var semaBubbleProp = vp.Register(vp.Prop[SemaCase]{
 	Kind: "c17.sema-bubble", Base: 10000,
 	Gen: func(t *rapid.T) SemaCase {
-		c := SemaCase{Cap: rapid.IntRange(0, 4).Draw(t, "cap"), G: rapid.IntRange(1, 7).Draw(t, "goroutines")}
+		c := SemaCase{Cap: rapid.IntRange(0, 4).Draw(t, "cap"), G: rapid.IntRange(2, 7).Draw(t, "goroutines")}
 		var acts []Act
 		for i := 0; i < c.G; i++ {
 			c.Deadline = append(c.Deadline, rapid.SampledFrom([]int{0, 0, 5, 20}).Draw(t, "deadline"))
@@ -340,6 +360,14 @@ var semaBubbleProp = vp.Register(vp.Prop[SemaCase]{
 			acts = append(acts, Act{Kind: "advance", Arg: rapid.SampledFrom([]int{1, 6, 30}).Draw(t, "ms")})
 		}
 		c.Script = rapid.Permutation(acts).Draw(t, "script")
+		if rapid.Bool().Draw(t, "burst") {
+			// Start a random subset at the same instant, first thing.
+			mask := rapid.IntRange(3, 1<<uint(c.G)-1).Draw(t, "mask")
+			if c.G == 1 {
+				mask = 1
+			}
+			c.Script = append([]Act{{Kind: "burst", Arg: mask}}, c.Script...)
+		}
 		return c
 	},
 	Check: checkSemaBubble,
